@@ -16,14 +16,14 @@ from harness.catalogue import lit
 from harness.checks.c03 import gen_trees
 from harness.checks.c21 import tuples
 from harness.common import Check, chunks, pmap, tmap, NPROC
-from harness.formulas import FA, EX, AND, OR, NOT, COUNT, SMT, PRED, M, MCH, MNT
-from harness.smt import A, I, S, V
+from harness.formulas import FA, EX, AND, NOT, COUNT, SMT, PRED, M, MCH, MNT
+from harness.smt import A, I, V
 
 PID = "C19"
 MDEPTH = 6
 TIERS = {
     # n_other: sampled vectors besides the always-included core; reps: materialisations per vector
-    "quick": dict(n_other=230, reps=1, pdepth=3, pipe_sets=1, nsol=3, cap=40),
+    "quick": dict(n_other=150, reps=1, pdepth=3, pipe_sets=1, nsol=3, cap=40, pipe_grammars=2),
     "thorough": dict(n_other=None, reps=1, pdepth=4, pipe_sets=3, nsol=5, cap=80),
 }
 
@@ -401,7 +401,10 @@ def build_pipes(plans, cat, P, rnd):
         c = cat[gn]
         g = GRAMMARS[gn]["g"]
         for rep in range(P["pipe_sets"]):
-            for plan in sorted(plans, key=lambda p: json.dumps(p, sort_keys=True)):
+            for pk, plan in enumerate(sorted(plans, key=lambda p: json.dumps(p, sort_keys=True))):
+                gk = sorted(cat).index(gn)
+                if P.get("pipe_grammars") and (gk - pk) % len(cat) >= P["pipe_grammars"]:
+                    continue        # quick: every plan on two of the grammars, rotating
                 if plan["mode"] == "stdout-lines" and any("\n" in a for alts in g.values() for a in alts):
                     continue        # one solution per line is only meaningful without line breaks in the language
                 nform = 1 + (rep + pid) % 2
